@@ -513,7 +513,7 @@ def search_distinguishing(chk: Check, rng, n_cases, nq=30):
     cf = os.path.join(BUILD, "in", f"{chk.prop}_algo_cases.json")
     with open(cf, "w") as f:
         json.dump(cases, f)
-    cfg = tlc.cfg_text(invariants=["AlgoRefinesDef"], constants={"NW": 8, "MaxB": 2, "FromFile": True, "MaxReport": 5})
+    cfg = tlc.cfg_text(invariants=["AlgoRefinesDef"], constants={"NW": 8, "MaxB": 2, "FromFile": True, "MaxReport": 5, "CU": 0})
     res = tlc.run("MC_AlgoRefines", cfg, f"{chk.prop}_algo", env={"CASES_FILE": cf}, timeout=3000)
     if res.violated:
         machinery_failure(f"MC_AlgoRefines: an algorithm of InfOCFAlgo does not refine its definition\n{res.out[-2000:]}")
@@ -522,9 +522,10 @@ def search_distinguishing(chk: Check, rng, n_cases, nq=30):
     return res.prints
 
 
-def verify_algo(chk: Check, tier):
-    """MC_AlgoRefines on the exhaustive 2-atom universe: as-coded recursions = definitions; wrong variants differ (non-vacuity)."""
-    cfg = tlc.cfg_text(invariants=["AlgoRefinesDef"], constants={"NW": 4, "MaxB": 1 if tier == "quick" else 2, "FromFile": False, "MaxReport": 5})
+def verify_algo(chk: Check, tier, with_c=False):
+    """MC_AlgoRefines on the exhaustive 2-atom universe: as-coded recursions = definitions; wrong variants differ (non-vacuity).
+    with_c: also the constraint system of c-inference over minimal correction sets = skeptical inference over all c-representations."""
+    cfg = tlc.cfg_text(invariants=["AlgoRefinesDef"], constants={"NW": 4, "MaxB": 1 if tier == "quick" else 2, "FromFile": False, "MaxReport": 5, "CU": 3 if with_c else 0})
     res = tlc.run("MC_AlgoRefines", cfg, f"{chk.prop}_algo2", timeout=3000)
     if res.violated:
         machinery_failure(f"MC_AlgoRefines: an algorithm of InfOCFAlgo does not refine its definition\n{res.out[-2000:]}")
